@@ -77,6 +77,14 @@ class C23(Prop):
                     src["returns"].append("E3")
                     src["skip"] = draw(st.sampled_from([[], ["dead_end"], ["reachability"]]))
                     steps.append({"name": names[len(steps)], "role": "step", "accepts": ["E3"], "returns": [], "skip": []})
+            waive = st.sampled_from([[], ["dead_end"], ["reachability"]])
+            if draw(st.integers(0, 3)) == 0 and len(steps) <= 4 and "E3" not in chain:
+                # a reachable cycle that never reaches an output event: valid only if its step waives the dead_end check
+                steps[0]["returns"].append("E3")
+                steps.append({"name": names[len(steps)], "role": "step", "accepts": ["E3"], "returns": ["E3"], "skip": draw(waive)})
+            elif draw(st.integers(0, 3)) == 0 and len(steps) <= 4 and "E2" not in chain:
+                # an unreachable island that can reach the stop event: valid only if its step waives the reachability check
+                steps.append({"name": names[len(steps)], "role": "step", "accepts": ["E2"], "returns": ["E2", "GStop"], "skip": draw(waive)})
             if draw(st.integers(0, 3)) == 0 and len(steps) <= 4:
                 # two scoped handlers, possibly claiming the same step
                 tgt = steps[0]["name"]
